@@ -77,14 +77,14 @@ Section C05.
   Proof. exact (settings_trusted_only_if cert fingerprint x509_ok chains_to). Qed.
 
   (* accepted EKU: an EKU set that is not accepted always yields a signingCredential failure code from the profile step,
-     so such a credential is never both trusted and free of signingCredential.invalid (outside the quiet inputs, C06) *)
+     so such a credential is never both trusted and free of signingCredential.invalid.  (Unconditional since fix
+     85312f708: every profile rejection now leaves a code.) *)
   Theorem c05_eku :
     forall p ee chain tst now,
-      quiet_input (features ee) = false ->
       eku_accepted (additional_ekus cert p) (features ee) = false ->
       exists k, verify_profile cert features (VerifyTrustPolicy cert p) (ee :: chain) tst now = [k]
                 /\ verify_profile cert features (VerifyCertificateProfileOnly cert p) (ee :: chain) tst now = [k].
-  Proof. exact (unaccepted_eku_flagged cert features). Qed.
+  Proof. exact (unaccepted_eku_flagged_all cert features). Qed.
 End C05.
 
 (* which anchor type is reported (System before User; allow list before both; passthrough before everything) *)
